@@ -125,7 +125,7 @@ func (r *runner) report(id string, hs []*harnessRun, t0 time.Time, noReplay bool
 			confirmed := false
 			switch v.Kind {
 			case "assert":
-				confirmed = nr.result == "assert-failed "+label
+				confirmed = nr.result == "assert-failed "+strings.ReplaceAll(label, "\n", " ")
 			case "panic":
 				confirmed = strings.HasPrefix(nr.result, "panic") || strings.HasPrefix(nr.result, "crash")
 			}
